@@ -22,7 +22,8 @@ LEVEL = "exploration"
 RULE = ("case = (clause list, fresh counter, support size, optional cardinality request, solver assignment, 1-5 successive "
         "solutions, sampler output lines); every case checks: written DIMACS (header, clause multiset, c ind lines), "
         "parse_cnf_file, the pycryptosat path through a recording stand-in, cryptominisat_solve / build_solution / "
-        "sample_uniform output parsing, update_file, and sample_non_uniform's iterate loop against brute-force projected "
+        "sample_uniform output parsing, the pycmsgen / pyunigen wrappers through recording stand-ins, update_file, and (small "
+        "formulas) sample_non_uniform's iterate loop and the real CMSGen / UniGen samplers against brute-force projected "
         "models; non-trivial = >=2 clauses and support>=1; distinct = distinct case JSON")
 ASSUMPTIONS = ["every trial-sequence (support) variable occurs in some clause, as the Consistency constraints guarantee",
                "cryptominisat_solve may keep the DIMACS terminator 0 at the end of the parsed assignment (all callers slice [:support])",
@@ -91,7 +92,33 @@ class _FakeModule:
     Solver = _FakeSolver
 
 
+class _FakeSampler:
+    """stand-in for pyunigen.Sampler"""
+    recorded = None
+    sampling_set = None
+    samples = None
+
+    def __init__(self, *a, **k):
+        type(self).recorded = []
+        type(self).sampling_set = None
+
+    def add_clause(self, clause):
+        type(self).recorded.append([int(l) for l in clause])
+
+    def sample(self, num=None, sampling_set=None, **k):
+        type(self).sampling_set = list(sampling_set) if sampling_set is not None else None
+        return 1, 0, [list(s) for s in type(self).samples]
+
+
+class _FakeSamplerModule:
+    Sampler = _FakeSampler
+
+
+_LAST = {}
+
+
 def check_case(case):
+    _LAST.clear()
     if not _valid(case):
         return []
     fails = []
@@ -170,6 +197,58 @@ def _check(case, path, fail):
     want = [(i + 1) if b else -(i + 1) for i, b in enumerate(assign)]
     if sol != want and sol != want + [0]:   # the DIMACS terminator may be kept; every caller slices [:support]
         fail("solver-output-parse", "cryptominisat_solve returned %r for solver assignment %r" % (sol, want))
+    # ---- A4b the in-process sampler wrappers (pycmsgen / pyunigen) through recording stand-ins: what the stand-in is
+    #      given must be the file's clauses and sampling set, the text produced must spell the stand-in's assignment
+    known = used                                            # a real solver knows the variables it was given in clauses
+    _FakeSolver.scripted = tuple([None] + assign[:known])
+    sampling = list(range(1, support + 1)) if support else list(range(1, P["nvars"] + 1))
+    if getattr(UG, "HAS_PYCMSGEN", False):
+        saved_mod = UG.pycmsgen
+        UG.pycmsgen = _FakeModule
+        try:
+            with env.quiet():
+                out = UG.call_cmsgen_python(Path(path), 2)
+        finally:
+            UG.pycmsgen = saved_mod
+        if dimacs.canon_clauses(_FakeSolver.recorded or []) != dimacs.canon_clauses(P["clauses"]):
+            fail("cmsgen-wrapper-receives-other-clauses", "clauses handed to pycmsgen differ from the file's")
+        _LAST["wrapper:pycmsgen"] = 1
+        rows = [l for l in out.splitlines() if l.strip()]
+        if len(rows) != 2:
+            fail("cmsgen-wrapper-output", "2 samples requested from a satisfiable stand-in, %d lines produced" % len(rows))
+        for row in rows:
+            got = list(SU.build_solution(row).assignment)
+            if [abs(l) for l in got] != sampling:
+                fail("cmsgen-wrapper-output", "line %r is not over the sampling set %r" % (row[:60], sampling[:12]))
+                break
+            wrong = [l for l in got if abs(l) <= known and (l > 0) != assign[abs(l) - 1]]
+            if wrong:
+                fail("cmsgen-wrapper-output", "solver assignment %r written as %r (literals %r differ)"
+                     % ([(i + 1) if b else -(i + 1) for i, b in enumerate(assign[:known])][:12], got[:12], wrong[:4]))
+                break
+    if getattr(UG, "HAS_PYUNIGEN", False) and case.get("solutions") and support >= 1:
+        samples = [[(j + 1) if b else -(j + 1) for j, b in enumerate(s_)] for s_ in case["solutions"][:5]]
+        _FakeSampler.samples = samples
+        saved_mod = UG.pyunigen
+        UG.pyunigen = _FakeSamplerModule
+        try:
+            with env.quiet():
+                out = UG.call_unigen_python(Path(path), len(samples))
+        finally:
+            UG.pyunigen = saved_mod
+        _LAST["wrapper:pyunigen"] = 1
+        if out == "":
+            if satutil.Sat(P["clauses"]).solve()[0]:
+                fail("unigen-wrapper-output", "no output for a satisfiable formula although the sampler returned samples")
+        else:
+            if dimacs.canon_clauses(_FakeSampler.recorded or []) != dimacs.canon_clauses(P["clauses"]):
+                fail("unigen-wrapper-receives-other-clauses", "clauses handed to pyunigen differ from the file's")
+            if list(_FakeSampler.sampling_set or []) != sampling:
+                fail("unigen-wrapper-sampling-set", "sampling set handed to pyunigen %r, expected 1..%d"
+                     % (list(_FakeSampler.sampling_set or [])[:12], support))
+            got = [list(SU.build_solution(l).assignment) for l in out.splitlines() if l.strip()]
+            if got != samples:
+                fail("unigen-wrapper-output", "sampler returned %r, text spells %r" % (samples[:2], got[:2]))
     # ---- A5 build_solution / sample_uniform parsing of sampler output
     lines = []
     sols = []
@@ -261,6 +340,26 @@ def _check(case, path, fail):
             fail("iterate-non-model", "sample_non_uniform returned an assignment that is not a projected model")
         elif len(got) != min(ask, len(proj)):
             fail("iterate-count", "asked %d, %d projected models exist, got %d" % (ask, len(proj), len(got)))
+        # ---- A8 the real in-process samplers end-to-end: every returned assignment is a projected model over 1..support
+        for name, use_cmsgen in (("CMSGen", True), ("UniGen", False)):
+            if not getattr(UG, "HAS_PYCMSGEN" if use_cmsgen else "HAS_PYUNIGEN", False):
+                continue
+            try:
+                with env.quiet():
+                    res = SU.sample_uniform(3, CNF([list(c) for c in case["clauses"]]), case["fresh"], support, reqs,
+                                            use_docker=False, use_cmsgen=use_cmsgen)
+            except UG.UnigenError:
+                continue                                   # the external tool's own refusal, not a text fault
+            if not proj and res:
+                fail("sampler-non-model:" + name, "unsatisfiable formula, %d samples returned" % len(res))
+            _LAST["real-sampler:%s:%s" % (name, "samples" if res else "none")] = 1
+            for r in res:
+                if [abs(l) for l in r.assignment] != list(range(1, support + 1)):
+                    fail("sampler-assignment-shape:" + name, "assignment %r is not over 1..%d" % (list(r.assignment)[:12], support))
+                    break
+                if tuple(l > 0 for l in r.assignment) not in proj:
+                    fail("sampler-non-model:" + name, "returned %r which is not a projected model" % (list(r.assignment)[:12],))
+                    break
 
 
 def fails_header(P, used):
@@ -335,7 +434,7 @@ def _run_hyp(arg):
             return
         finally:
             env.clean_cwd_files()
-        acc.case(case, len(case["clauses"]) >= 2 and case["support"] >= 1, _labels(case))
+        acc.case(case, len(case["clauses"]) >= 2 and case["support"] >= 1, _labels(case) + sorted(_LAST))
         for f in fs:
             acc.fail(f["bucket"], f["case"], f["message"])
     runner.drive(cases(), body, n, seed_value)
